@@ -79,6 +79,64 @@ def native_bounds(repo, rep, rule):
     return an
 
 
+def output_initialised(repo, rep, rule):
+    """Every exit of partition() is preceded by a loop that stores into the output array, or the wrapper hands partition() a
+    zero-filled array: otherwise Python receives memory nobody wrote."""
+    cf = cnative.core(repo)
+    wf = cnative.wrap(repo)
+    params = cf.params("partition")
+    if len(params) < 2:
+        raise AnalysisError("partition() signature changed")
+    out = params[1]
+    body = cf.body("partition")
+
+    def stores_out(node):
+        for x in cf.walk(node):
+            if cnative.is_assign(x):
+                l = ex(x["inner"][0])
+                if l[0] == "idx" and l[1] == ("var", out):
+                    return True
+        return False
+    exits = [x for x in cf.walk(body) if x.get("kind") == "ReturnStmt"] + [None]
+    uncovered = []
+    for e in exits:
+        covered = False
+        if e is None:
+            covered = any(s_.get("kind") == "ForStmt" and stores_out(s_) for s_ in cnative.stmts(body))
+        else:
+            child, p = e, e.get("_p")
+            while p is not None and p.get("kind") != "FunctionDecl" and not covered:
+                if p.get("kind") == "CompoundStmt":
+                    for s_ in p.get("inner", []):
+                        if s_ is child:
+                            break
+                        if isinstance(s_, dict) and s_.get("kind") == "ForStmt" and stores_out(s_):
+                            covered = True
+                child, p = p, p.get("_p")
+        if not covered:
+            uncovered.append(e)
+    alloc = None
+    for x in wf.walk(wf.func("specpart")):
+        if x.get("kind") == "CallExpr":
+            t = ex(x)
+            if "PyArray_API" in show(t[1]) and len(t[2]) == 4:
+                alloc = x
+    if alloc is None:
+        raise AnalysisError("wrapper: allocation of the output array not found")
+    import re as _re
+    zeroed = bool(_re.search(r"PyArray_(ZEROS|Zeros)\b", wf.text(alloc)))
+    rep.floor(rule, "exits of partition()", len(exits), 2)
+    if uncovered and not zeroed:
+        e = uncovered[0]
+        rep.fail(rule, SPECPART_C, cf.line(e) if e is not None else cf.line(body), "partition",
+                 (cf.text(e) if e is not None else "end of partition()") + f"  /  {wf.text(alloc)[:40]}(...)",
+                 f"this exit of partition() is reached without any store into '{out}', and the wrapper allocates the output without "
+                 "zero-filling it: the caller receives uninitialised memory (constant spectra take the early exit)")
+    else:
+        rep.ok(rule, f"{SPECPART_C} partition + {WRAP_C}:{wf.line(alloc)}", f"{len(exits)} exits, {len(uncovered)} without a store into '{out}', "
+               f"output {'zero-filled' if zeroed else 'not zero-filled'} at allocation", "every element of the returned map is written")
+
+
 def _run_c04_table(repo, sub):
     from . import c04
     cf = cnative.core(repo)
@@ -94,8 +152,15 @@ def run(repo, rep, tier):
     rep.rule("R-C20-8", "(shared with C18) partition() never reaches its exit(EXIT_FAILURE) / a stale neighbour table: the shape guard of "
                         "partinit implies both extents unchanged and the work buffers are re-initialised per call")
     cnative.statics(repo, rep, "R-C20-8")
+    rep.rule("R-C20-13", "the label map handed back to Python is written on every exit of partition() (a loop storing into the output precedes "
+                         "the exit) or is zero-filled at allocation")
+    output_initialised(repo, rep, "R-C20-13")
     python_lints(repo, rep)
     wrapper_preconditions(repo, rep)
+    rep.rule("R-C20-12", "(shared with C07) every apply_ufunc(dask='parallelized') argument is single-chunk along its core dimensions on every "
+                         "path: otherwise the call raises ValueError for a dataset that happens to be chunked along them")
+    from .c07 import core_dim_chunks
+    core_dim_chunks(repo, rep, "R-C20-12")
     rep.trust("clang 14 JSON AST; exact polynomial comparisons with all symbols >= 1; Python ast")
     rep.assume("preconditions: nk >= 1, nth >= 1, ihmax >= 1 (property's quantifier); malloc does not fail")
     rep.note("not decided: termination of the immersion loops, NaN handling inside the C routine, finiteness of Python "
@@ -383,6 +448,59 @@ def kernel_guards(repo, rep):
                  f"degenerate tail windows are no longer handled: no branch for a window holding {sorted(missing)} frequencies")
     else:
         rep.ok("R-C20-4", f"{fi.file}:{fi.node.lineno} alpha", "tail window with 0 / 1 / many frequencies", "both degenerate cases have a branch")
+    # replacement windows built from a selected index: [p, p + 1] is in range only where p is known not to be the last index
+    fi = repo.func("wavespectra.core.npstats.alpha")
+    single = {}
+    for n in ast.walk(fi.node):
+        if isinstance(n, ast.Assign) and len(n.targets) == 1 and isinstance(n.targets[0], ast.Name):
+            single.setdefault(n.targets[0].id, []).append(n.value)
+
+    def may_be_selected(e, depth=0):
+        # an element of the selected positions (any valid index, possibly the last one)
+        if isinstance(e, ast.Subscript) and isinstance(e.value, ast.Name) and e.value.id == pos:
+            return True
+        if isinstance(e, ast.IfExp):
+            return may_be_selected(e.body, depth) or may_be_selected(e.orelse, depth)
+        if isinstance(e, ast.Name) and e.id != pos and depth < 3:
+            return any(may_be_selected(v, depth + 1) for v in single.get(e.id, []))
+        return False
+
+    def last_excluded(conds):
+        for t, truth in conds:
+            if isinstance(t, ast.Compare) and len(t.ops) == 1:
+                l, r = ast.unparse(t.left).replace(" ", ""), ast.unparse(t.comparators[0]).replace(" ", "")
+                sides = {l, r}
+                is_last = any(x.endswith(".size-1") or x.startswith("len(") and x.endswith(")-1") for x in sides)
+                sel = any(may_be_selected(x) for x in (t.left, t.comparators[0]))
+                if is_last and sel:
+                    op = type(t.ops[0])
+                    if (op is ast.Eq and not truth) or (op is ast.NotEq and truth) or (op is ast.Lt and truth and may_be_selected(t.left)) \
+                            or (op is ast.GtE and not truth and may_be_selected(t.left)):
+                        return True
+        return False
+    nwin = 0
+
+    def visit(stmts_, conds):
+        nonlocal nwin
+        for st in stmts_:
+            if isinstance(st, ast.If):
+                visit(st.body, conds + [(st.test, True)])
+                visit(st.orelse, conds + [(st.test, False)])
+            elif isinstance(st, ast.Assign) and isinstance(st.value, (ast.List, ast.Tuple)) and isinstance(st.targets[0], ast.Name) \
+                    and st.targets[0].id == pos:
+                nwin += 1
+                for el in st.value.elts:
+                    if isinstance(el, ast.BinOp) and isinstance(el.op, ast.Add) and may_be_selected(el.left) and not last_excluded(conds):
+                        rep.fail("R-C20-4", fi.file, st.lineno, fi.qualname, ast.unparse(st),
+                                 f"'{ast.unparse(el)}' can be one past the last frequency: the selected position may be the last index and no "
+                                 "dominating test excludes that case, so the window indexes out of bounds (IndexError) for a peak near the top "
+                                 "of the frequency range")
+                        break
+                else:
+                    rep.ok("R-C20-4", f"{fi.file}:{st.lineno} alpha", ast.unparse(st), "replacement window stays inside the frequency axis")
+            elif isinstance(st, (ast.For, ast.While, ast.With, ast.Try)):
+                visit(getattr(st, "body", []), conds)
+    visit(fi.node.body, [])
     # npstats.hs: direction width only when more than one direction
     fi = repo.func("wavespectra.core.npstats.hs")
     cfg = CFG(fi.node)
